@@ -2,7 +2,7 @@
    Statements only; proofs in C04/Proofs*.v (built on the C02 solver model). *)
 From Coq Require Import List Arith QArith Qminmax Lqa Lia Bool.
 From AIT Require Import Base.Qx Base.Mdp Base.MdpExec C02.Model C02.Spec C02.ProofsVec C02.ProofsCross
-  C02.ProofsSched C02.ProofsProj C02.ProofsIP C02.ProofsPrunePw C04.Model C04.ProofsPlan C04.ProofsExec C04.ProofsRun.
+  C02.ProofsSched C02.ProofsProj C02.ProofsIP C02.ProofsPrunePw C04.Model C04.ProofsPlan C04.ProofsExec C04.ProofsRun C04.ProofsBound C04.ProofsPoint.
 Import ListNotations.
 Local Open Scope Q_scope.
 
@@ -97,6 +97,47 @@ Print Assumptions policy_no_UB.
 Theorem check_entry_sound : forall m prev e, check_entry 0 m prev e = true -> entry_is_plan m prev e.
 Proof. exact check_entry_sound_lemma. Qed.
 Print Assumptions check_entry_sound.
+
+(* The point-based backup crossSumBestAtBelief — the one construction PBVI, PERSEUS, Witness and
+   LinearSupport all use to create entries — yields a plan over the previous list, for every belief
+   and action; and its value at the belief is the one-step look-ahead of the previous surface. *)
+Theorem point_backup_is_plan : forall m, (0 < nO m)%nat -> obs_clean m ->
+  forall b w a, w <> [] -> (a < nA (pm m))%nat ->
+  entry_is_plan m w (fst (csbb_row b (proj_row m w a) a (nS (pm m)))).
+Proof. exact point_backup_is_plan_lemma. Qed.
+Print Assumptions point_backup_is_plan.
+
+Theorem point_backup_value : forall m, (0 < nO m)%nat -> 0 <= gam (pm m) -> obs_clean m ->
+  forall b w a, w <> [] -> wfl (nS (pm m)) w -> length b = nS (pm m) -> (a < nA (pm m))%nat ->
+  let '(e, v) := csbb_row b (proj_row m w a) a (nS (pm m)) in
+  v == dot (vals e) b /\
+  v == rew_at m b a + gam (pm m) * qsum (map (fun o => vbest w (tau_step m b a o)) (seq 0 (nO m))).
+Proof. exact point_backup_value_lemma. Qed.
+Print Assumptions point_backup_value.
+
+(* A value function made of plans is a sound LOWER bound on the optimal value (for every solver's
+   output, whatever produced it): no conditional plan can promise more than expectimax, provided the
+   horizon-0 entries promise nothing. *)
+Theorem plan_le_EV : forall m, wf_pomdp m -> forall older cur i tau, chain_ok m older cur ->
+  (forall e tau', In e (last (cur :: older) []) -> dot (vals e) tau' == 0) ->
+  (i < length cur)%nat -> nonneg tau -> length tau = nS (pm m) ->
+  dot (vals (nth i cur dummy_entry)) tau <= EV m (length older) tau.
+Proof. exact plan_le_EV_lemma. Qed.
+Print Assumptions plan_le_EV.
+
+Theorem plan_surface_le_EV : forall m, wf_pomdp m -> forall older cur tau, chain_ok m older cur -> cur <> [] ->
+  (forall e tau', In e (last (cur :: older) []) -> dot (vals e) tau' == 0) ->
+  nonneg tau -> length tau = nS (pm m) -> vbest cur tau <= EV m (length older) tau.
+Proof. exact plan_surface_le_EV_lemma. Qed.
+Print Assumptions plan_surface_le_EV.
+
+(* What the oracle's walk over a value function (oldest horizon first, tolerance 0) establishes:
+   the newest-first chain of plans the theorems above are stated for. *)
+Theorem check_vf_chain : forall m rest older cur, chain_ok m older cur -> wfl (nS (pm m)) cur ->
+  check_vf 0 m cur rest = true ->
+  let '(o', c') := to_chain older cur rest in chain_ok m o' c' /\ wfl (nS (pm m)) c'.
+Proof. exact check_vf_chain_lemma. Qed.
+Print Assumptions check_vf_chain.
 
 (* Non-vacuity: on the concrete POMDP of Properties_C02 the pointwise-pruning run of horizon 2
    meets the hypotheses and its chain is non-trivial (3 entries at horizon 2). *)
